@@ -108,9 +108,43 @@ def kid_main(prox, conn, handle, kind):
         conn.send(rep)
 
 
-def client_main(manager, conn, name):
+class VaultTab:
+    """The handle table of a client process kept OUTSIDE it: a dict hosted by a SECOND server process B.  Every proxy this
+    client "holds" then lives inside server B (a process that is itself a server, of another manager) and nowhere else; what
+    the client reads from the table is a short-lived copy.  For the hosting server A, B is just one more client process.
+    After every operation one cheap call flushes the request / reply B's serving thread still references."""
+
+    def __init__(self, d):
+        self.d = d
+
+    def _flush(self):
+        len(self.d)
+
+    def __setitem__(self, h, px):
+        self.d[h] = px
+        del px
+        self._flush()
+
+    def __getitem__(self, h):
+        px = self.d[h]
+        self._flush()
+        return px
+
+    def __delitem__(self, h):
+        del self.d[h]
+        self._flush()
+
+    def items(self):
+        return [(h, self[h]) for h in self.d.keys()]
+
+    def clear(self):
+        self.d.clear()
+        self._flush()
+
+
+def client_main(manager, conn, name, vault_manager=None):
     import multiprocessing
-    tab = {}      # handle -> proxy
+    tab = {} if vault_manager is None else VaultTab(vault_manager.dict())      # handle -> proxy
     kinds = {}    # handle -> 'dict' | 'list' | 'block'
     kids = {}     # kid name -> (process, connection)
     fac = manager.VerifFactory()
@@ -228,16 +262,20 @@ def _reap(pr):
 class World:
     """a fresh ServerProcess + client interpreters"""
 
-    def __init__(self, procs):
+    def __init__(self, procs, vault=()):
         import multiprocessing
         self.server = ServerProcess()
         self.server.start()
+        self.server2 = None
+        if vault:
+            self.server2 = ServerProcess()   # hosts the handle tables of the `vault` clients (see VaultTab)
+            self.server2.start()
         self.conns = {}
         self.procs = {}
         self.kid_parent = {}
         for p in procs:
             a, b = multiprocessing.Pipe()
-            pr = Process(target=client_main, args=(self.server, b, p), name=p)
+            pr = Process(target=client_main, args=(self.server, b, p, self.server2 if p in vault else None), name=p)
             pr.start()
             b.close()
             self.conns[p] = a
@@ -296,14 +334,17 @@ class World:
             except Exception:  # noqa: BLE001
                 pass
             _reap(pr)
-        try:
-            self.server.shutdown()
-        except Exception:  # noqa: BLE001
+        for srv in (self.server2, self.server):
+            if srv is None:
+                continue
             try:
-                self.server._process.kill()
+                srv.shutdown()
             except Exception:  # noqa: BLE001
-                pass
-        _reap(getattr(self.server, '_process', None))
+                try:
+                    srv._process.kill()
+                except Exception:  # noqa: BLE001
+                    pass
+            _reap(getattr(srv, '_process', None))
 
 
 def kind_of(o, variant):
@@ -317,7 +358,7 @@ class Driver:
     container slot of every stored proxy)."""
 
     def __init__(self, procs, variant):
-        self.w = World(procs)
+        self.w = World(procs, tuple(p for p in variant.get('vault', ()) if p in procs))
         self.variant = variant
         self.ident = {}     # spec object -> server ident
         self.shmname = {}   # block -> shared memory name
@@ -924,7 +965,7 @@ def random_history(item):
     sc = item['sc']
     rnd = random.Random(item['seed'])
     gen = Gen(rnd, sc)
-    variant = {'container': sc.get('ckind', {}), 'exit': sc.get('exit', 'hold')}
+    variant = {'container': sc.get('ckind', {}), 'exit': sc.get('exit', 'hold'), 'vault': sc.get('vault', [])}
     drv = Driver(sc['procs'], variant)
     evs = []
     try:
@@ -1022,7 +1063,8 @@ def gen_scenarios(rnd, count, length):
     out = []
     for k in range(count):
         cs = ['c1', 'c2'] if rnd.random() < 0.7 else ['c1']
-        out.append({'procs': ['p1', 'p2'] if rnd.random() < 0.7 else ['p1', 'p2', 'p3'],
+        procs = ['p1', 'p2'] if rnd.random() < 0.7 else ['p1', 'p2', 'p3']
+        out.append({'procs': procs, 'vault': [rnd.choice(procs)] if k % 3 == 2 else [],
                     'kids': ['k1', 'k2', 'k3'], 'containers': cs, 'blocks': ['m1', 'm2'] if rnd.random() < 0.6 else ['m1'],
                     'ckind': {c: rnd.choice(['dict', 'list']) for c in cs}, 'exit': rnd.choice(['hold', 'hold', 'drop']),
                     'len': length, 'maxid': 120, 'burst': rnd.choice([0.0, 0.3, 0.6]), 'selfstore': rnd.random() < 0.3,
